@@ -319,6 +319,21 @@ MiscCases ==
            <<SBlock(<<>>)>>, <<>>),
       << Prog(<<>>, <<Rule(NoE, <<>>), Rule(Re0(ReB), <<>>), Rule(NoE, <<SPrint(<<S(<<c_r>>), V("NR")>>)>>)>>, <<>>, <<>>) >>,
       << <<c_a, c_b>>, <<c_c>> >> >>,
+    \* a for-in whose body is empty still assigns the loop variable (the "pick any key" idiom), also in a function
+    <<"forin-empty-body-assigns-variable",
+      Prog(<<SExpr(Asg(Idx("a", S(<<c_o, c_n, c_l, c_y>>)), N(1))), SForIn("k", "a", <<>>), SPrint(<<S(<<LBRK>>), V("k"), S(<<RBRK>>)>>),
+             SForIn("k2", "a", <<SBlock(<<>>)>>), SPrint(<<V("k2")>>), SPrint(<<Call("pick", <<V("a")>>)>>)>>, <<>>, <<>>,
+           <<Func("pick", <<AParam("A"), Param("q")>>, <<SForIn("q", "A", <<>>), SRet(V("q"))>>)>>),
+      << Prog(<<SExpr(Asg(Idx("a", S(<<c_o, c_n, c_l, c_y>>)), N(1))), SForIn("k", "a", <<SExpr(N(0))>>), SPrint(<<S(<<LBRK>>), V("k"), S(<<RBRK>>)>>),
+                SForIn("k2", "a", <<SExpr(V("k2"))>>), SPrint(<<V("k2")>>), SPrint(<<Call("pick", <<V("a")>>)>>)>>, <<>>, <<>>,
+              <<Func("pick", <<AParam("A"), Param("q")>>, <<SForIn("q", "A", <<SExpr(N(0))>>), SRet(V("q"))>>)>>) >>,
+      <<>> >>,
+    \* NF assigned the value it has is an assignment all the same: $0 is rebuilt with OFS
+    <<"nf-assigned-its-own-value",
+      BeginOnly(<<SExpr(Asg(V("OFS"), S(<<MINUS>>))), SExpr(Asg(Fld(N(0)), S(<<c_a, SP, SP, c_b, SP, SP, SP, c_c>>))), SExpr(Asg(V("NF"), V("NF"))), SPrint(<<Fld(N(0))>>),
+                  SExpr(Asg(Fld(N(0)), S(<<c_a, SP, SP, c_b>>))), SExpr(Aug("+", V("NF"), N(0))), SPrint(<<Fld(N(0))>>),
+                  SExpr(Asg(Fld(N(0)), S(<<c_a, SP, SP, c_b>>))), SPrint(<<Aug("*", V("NF"), N(1)), Fld(N(0))>>),
+                  SExpr(Asg(Fld(N(0)), S(<<c_a, SP, SP, c_b>>))), SExpr(Asg(V("NF"), N(2))), SPrint(<<Fld(N(0))>>)>>), <<>>, <<>> >>,
     <<"bare-exit-in-begin", Prog(<<T1(<<c_b>>), SExit(NoE), T1(<<c_x>>)>>, <<Rule(NoE, <<T1(<<c_r>>)>>)>>, <<T1(<<c_e>>)>>, <<>>), <<>>, << <<c_x>> >> >>,
     <<"exit-status-then-bare-exit-in-end", Prog(<<>>, <<Rule(NoE, <<SExit(N(4))>>)>>, <<T1(<<c_e>>), SExit(NoE), T1(<<c_x>>)>>, <<>>), <<>>, << <<c_x>>, <<c_y>> >> >>,
     <<"exit-in-function", Prog(<<SExpr(Call("f", <<>>)), T1(<<c_x>>)>>, <<>>, <<T1(<<c_e>>)>>, <<Func("f", <<>>, <<T1(<<c_g>>), SExit(N(2)), T1(<<c_y>>)>>)>>), <<>>, <<>> >>,
